@@ -267,7 +267,45 @@ func (self *Node) makePrenodesForBinding(bind *syntax.ResolvedBinding,
 			refs[self.top.allNodes[ref.Id]] = struct{}{}
 		}
 	}
+	// A merge over a mapped call whose fork count is not known until run time
+	// and which has no fork node gets its forks from the mapped call itself,
+	// so that call must complete first even if no value is taken from it.
+	for _, id := range findImplicitMergeCalls(bind.Exp, nil) {
+		if n := self.top.allNodes[id]; n != nil && n != self &&
+			!strings.HasPrefix(self.GetFQName(), n.GetFQName()+".") {
+			if refs == nil {
+				refs = make(map[Nodable]struct{}, 1)
+			}
+			refs[n] = struct{}{}
+		}
+	}
 	return refs, fileRefs
+}
+
+// Finds the fully-qualified ids of mapped calls which are merged over in exp
+// without a fork node to supply the number of forks.
+func findImplicitMergeCalls(exp syntax.Exp, found []string) []string {
+	switch exp := exp.(type) {
+	case *syntax.MergeExp:
+		if exp.ForkNode == nil && exp.Call != nil && !exp.KnownLength() {
+			found = append(found, exp.Call.GetFqid())
+		}
+		return findImplicitMergeCalls(exp.Value, found)
+	case *syntax.SplitExp:
+		return findImplicitMergeCalls(exp.Value, found)
+	case *syntax.DisabledExp:
+		return findImplicitMergeCalls(exp.Disabled,
+			findImplicitMergeCalls(exp.Value, found))
+	case *syntax.ArrayExp:
+		for _, e := range exp.Value {
+			found = findImplicitMergeCalls(e, found)
+		}
+	case *syntax.MapExp:
+		for _, e := range exp.Value {
+			found = findImplicitMergeCalls(e, found)
+		}
+	}
+	return found
 }
 
 func (self *Node) makePrenodes() {
